@@ -706,7 +706,7 @@ sqf::runtime::runtime::result sqf::runtime::runtime::execute(sqf::runtime::runti
         {
             while (!eval_context->empty())
             {
-                auto oldstate = m_state;
+                state oldstate = m_state;
                 if (m_state == runtime::state::empty)
                 {
                     m_state = runtime::state::running;
